@@ -13,7 +13,8 @@ ID = "C18"
 FMTS = ["h5", "xtc", "trr", "dcd", "nc", "mdcrd", "xyz", "lammpstrj", "dtr", "arc"]
 ARC = "seeds/nitrogen.arc"
 RULE = ("case = (seekable format, file of 1-12 frames, optional fixed atom_indices, sequence of <=25 operations over two handles "
-        "from {read(n), read(), seek(k) in range, seek(d,1) in range, tell(), len()}); oracle = integer cursor per handle + the "
+        "from {read(n), read(), seek(k) in range, seek(d,1) in range, seek(d,2) in range (generated part only; NotImplementedError = "
+        "refusal that leaves the position alone), tell(), len()}); oracle = integer cursor per handle + the "
         "frames read by a fresh handle in one go (all returned arrays compared bit-for-bit, tell/len compared with the model; after "
         "the last operation position and next frame are checked again); non-trivial = the history contains a seek or a read-to-end "
         "followed by a later read/tell/relative seek; distinct = different canonical JSON")
@@ -48,7 +49,7 @@ def _hits_eof(case):
             return True
         elif op[1] == "seek":
             pos[h] = op[2] % n
-        elif op[1] == "seekrel":
+        elif op[1] in ("seekrel", "seekend"):
             pos[h] = op[2] % n
     return False
 
@@ -83,10 +84,15 @@ def strategy(draw, tier="quick"):
         st.tuples(st.just("readall")),
         st.tuples(st.just("seek"), st.integers(0, n - 1)),
         st.tuples(st.just("seekrel"), st.integers(0, n - 1)),   # target position; the delta is derived from the model
+        st.tuples(st.just("seekend"), st.integers(0, n - 1)),   # seek(target - len, 2): documented for some formats, refused by others
         st.tuples(st.just("tell")),
         st.tuples(st.just("len")))
     ops = draw(st.lists(st.tuples(st.integers(0, nh - 1), op), min_size=1, max_size=25))
     case["ops"] = [[h] + list(o) for h, o in ops]
+    if fmt == "trr":
+        # TRR refuses seeks from the end (position unchanged); keeping the region of its open finding computable from the
+        # history alone is simpler without them
+        case["ops"] = [[o[0], "tell"] if o[1] == "seekend" else o for o in case["ops"]]
     keys = _open_keys()
     if "C18-trr-eof-counter" in keys and fmt == "trr" and _hits_eof(case):
         # exclude by construction: truncate the history just before the first read that touches EOF
@@ -107,7 +113,7 @@ def _truncate_before_eof(case):
             pos[h] += op[2]
         elif op[1] == "readall":
             continue
-        elif op[1] in ("seek", "seekrel"):
+        elif op[1] in ("seek", "seekrel", "seekend"):
             pos[h] = op[2] % n
         out.append(op)
     return out or [[0, "tell"]]
@@ -249,6 +255,17 @@ def run_case(case):
                     fh.seek(tgt - pos[h], 1)
                     pos[h] = tgt
                     prev[h] = "seekrel"
+                    seen_mut = True
+                elif name == "seekend":
+                    tgt = op[2] % N
+                    try:
+                        fh.seek(tgt - N, 2)
+                    except NotImplementedError:
+                        labels.append("seek-from-end-refused")     # a clean refusal: the position must not have moved
+                        prev[h] = "refused-seekend"
+                        continue
+                    pos[h] = tgt
+                    prev[h] = "seekend"
                     seen_mut = True
                 elif name == "tell":
                     t = fh.tell()
